@@ -49,6 +49,9 @@ fn main() {
     for (sig, what) in wrong_key_cells() {
         println!("{}", json!({"t": "v", "sig": sig, "what": what, "case": {"engine": "c14", "backend": "rustls", "wrong_key": true}, "rank": 1}));
     }
+    for (sig, what, case) in c14::double_tls_cells() {
+        println!("{}", json!({"t": "v", "sig": sig, "what": what, "case": case, "rank": 1}));
+    }
     let r = c14::run_matrix();
     for (sig, what, case, rank) in &r.violations {
         println!("{}", json!({"t": "v", "sig": sig, "what": what, "case": case, "rank": rank}));
